@@ -136,3 +136,55 @@ Qed.
 Definition nonum_h := leaves_ok nonum.
 Lemma hpyeq_exact a b : nonum_h b = true -> hpyeq a b = true -> a = b.
 Proof. apply heqb_with_exact. exact pyeq_exact. Qed.
+
+(* reflexivity *)
+Lemma veqb_refl : forall a, veqb a a = true.
+Proof.
+  induction a as [s|z|z|b0| |n|f|xs IH|kv IH|f pos kw IHp IHk] using val_ind'; cbn.
+  - apply String.eqb_refl.
+  - apply Z.eqb_refl.
+  - apply Z.eqb_refl.
+  - destruct b0; reflexivity.
+  - reflexivity.
+  - apply Nat.eqb_refl.
+  - apply String.eqb_refl.
+  - induction IH as [|x l Hx Hl IHl]; [reflexivity|]. rewrite Hx. exact IHl.
+  - induction IH as [|[a b] l [Ha Hb] Hl IHl]; [reflexivity|]. cbn in Ha, Hb. rewrite Ha, Hb. exact IHl.
+  - rewrite String.eqb_refl. cbn.
+    assert ((fix vl (x y : list val) {struct x} : bool :=
+               match x with [] => match y with [] => true | _ :: _ => false end
+               | p :: x' => match y with [] => false | q :: y' => veqb p q && vl x' y' end end) pos pos = true) as ->.
+    { induction IHp as [|x l Hx Hl IHl]; [reflexivity|]. rewrite Hx. exact IHl. }
+    cbn. induction IHk as [|[a b] l Hb Hl IHl]; [reflexivity|]. cbn in Hb. rewrite String.eqb_refl, Hb. exact IHl.
+Qed.
+
+Lemma pyeq_refl : forall a, pyeq a a = true.
+Proof.
+  induction a as [s|z|z|b0| |n|f|xs IH|kv IH|f pos kw IHp IHk] using val_ind'.
+  - cbn. apply String.eqb_refl.
+  - cbn. apply Z.eqb_refl.
+  - cbn. apply Z.eqb_refl.
+  - cbn. apply Z.eqb_refl.
+  - reflexivity.
+  - cbn. apply Nat.eqb_refl.
+  - cbn. apply String.eqb_refl.
+  - cbn. induction IH as [|x l Hx Hl IHl]; [reflexivity|]. rewrite Hx. exact IHl.
+  - exact (veqb_refl (VDict kv)).
+  - exact (veqb_refl (VApp f pos kw)).
+Qed.
+
+Lemma list_eqb_string_refl : forall k, list_eqb String.eqb k k = true.
+Proof. induction k as [|a k IH]; cbn; [reflexivity|]. rewrite String.eqb_refl. exact IH. Qed.
+
+Lemma heqb_with_refl (leq : val -> val -> bool) : (forall a, leq a a = true) -> forall a, heqb_with leq a a = true.
+Proof.
+  intros Hl. induction a as [v|f args kw IH|h IH|m args IH|] using nhash_ind'; cbn.
+  - apply Hl.
+  - rewrite String.eqb_refl, list_eqb_string_refl. cbn. rewrite andb_true_r.
+    induction IH as [|x l Hx Hl' IHl]; [reflexivity|]. rewrite Hx. exact IHl.
+  - exact IH.
+  - rewrite String.eqb_refl. cbn. induction IH as [|x l Hx Hl' IHl]; [reflexivity|]. rewrite Hx. exact IHl.
+  - reflexivity.
+Qed.
+Lemma heqb_refl a : heqb a a = true. Proof. apply heqb_with_refl. exact veqb_refl. Qed.
+Lemma hpyeq_refl a : hpyeq a a = true. Proof. apply heqb_with_refl. exact pyeq_refl. Qed.
